@@ -6,6 +6,9 @@ import json, os, subprocess, sys, shutil, glob, tempfile, time
 V = '/verif'
 man = json.load(open(V + '/MANIFEST.json'))
 checks = [c['property_id'] for c in man['checks']]
+partial = bool(os.environ.get('CHECKS'))
+if partial:
+    checks = os.environ['CHECKS'].split(',')
 seeds = sorted(sys.argv[1:] or [os.path.basename(d) for d in glob.glob(V + '/seeded/C*')])
 work = tempfile.mkdtemp(prefix='seedmatrix_')
 repo = work + '/repo'
@@ -29,6 +32,19 @@ for s in seeds:
         outp = p.stdout.decode(errors='replace')
         viol = [l.split('replay=')[1].split('/')[-1].replace('.json', '') for l in outp.splitlines() if l.startswith('VIOLATION')]
         row[c] = {'rc': p.returncode, 'violations': viol[:6]}
+    if partial and s in res and 'detected_by' in res[s]:
+        old = res[s]
+        for c in checks:
+            for fld in ('detected_by', 'broken'):
+                if c in old[fld]: old[fld].remove(c)
+            old['detail'].pop(c, None)
+            if row[c]['rc'] == 1: old['detected_by'].append(c)
+            elif row[c]['rc'] != 0: old['broken'].append(c)
+            if row[c]['violations']: old['detail'][c] = row[c]['violations']
+        old['detected_by'].sort(); old['broken'].sort()
+        print(s, 'partial', {c: row[c]['rc'] for c in checks}, flush=True)
+        json.dump(res, open(out_path, 'w'), indent=1, sort_keys=True)
+        continue
     res[s] = {'repo_head': head, 'detected_by': sorted(c for c, v in row.items() if v['rc'] == 1), 'broken': sorted(c for c, v in row.items() if v['rc'] not in (0, 1)), 'detail': {c: v['violations'] for c, v in row.items() if v['violations']}}
     print(s, 'detected by', res[s]['detected_by'], 'broken', res[s]['broken'], flush=True)
     json.dump(res, open(out_path, 'w'), indent=1, sort_keys=True)
